@@ -385,6 +385,62 @@ def extra_configs(prop, tier, seed):
             extra.append(dict(c, hook='observer', adv=0.0, n_iter=4, n_agents=1 if j % 2 == 0 else max(2, c['n_agents']),
                               objective='sphere' if j % 2 == 0 else 'constant', hyper={'w': 0.7, 'w_min': lo, 'w_max': hi, 'c1': 1.7, 'c2': 1.7}))
     if prop == 'C03':
+        # a finite penalty twenty orders of magnitude above the ordinary (negative) values, for the kinds that turn fitness into
+        # selection probabilities: the task still ends
+        pool_p = [c for c in runlevel.gen_configs('thorough', seed + 351) if c['space'] == 'search']
+        for kind in ('ABC', 'BHA', 'HS', 'SA'):
+            for c in [c for c in pool_p if c['kind'] == kind][:2 if tier == 'quick' and kind == 'ABC' else 1 if tier == 'quick' else 4]:
+                extra.append(dict(c, hook='observer', adv=0.0, n_iter=8, n_agents=10, objective='hugepen', box='unit', lb=[0.0] * c['n_vars'],
+                                  ub=[1.0] * c['n_vars'], hyper={}, store_best_only=False))
+    if prop in ('C01', 'C02'):
+        # one Opytimizer object, two tasks: the objective replaced through the `function` setter in between (boxes away from the origin)
+        rng_t = _random.Random(seed * 103 + 71)
+        pool_t = [c for c in runlevel.gen_configs('thorough', seed + 361) if c['space'] == 'search']
+        for kind in ('PSO', 'AIWPSO', 'RPSO', 'HC', 'ABC', 'CS'):
+            for c in [c for c in pool_t if c['kind'] == kind and c['objective'] not in ('view0', 'view00', 'fmax')][:1 if tier == 'quick' else 4]:
+                lo = [round(rng_t.uniform(2, 7), 2) for _ in range(c['n_vars'])]
+                extra.append(dict(c, hook='observer', adv=0.0, n_iter=max(c['n_iter'], 3), n_agents=max(c['n_agents'], 4), box='offset', lb=lo,
+                                  ub=[l_ + 1.0 for l_ in lo], objective='sphere', hyper={}, prior=dict(same_space=True, other_objective=True, same_task=True)))
+    if prop == 'C01':
+        # the population replaced by freshly constructed agents (unit bounds) on a box that is not inside [0, 1], for the kinds that
+        # rely on the space-wide clip
+        pool_q = [c for c in runlevel.gen_configs('thorough', seed + 381) if c['space'] == 'search']
+        for kind in ('PSO', 'FA', 'GSA', 'HC', 'SCA', 'WCA'):
+            for c in [c for c in pool_q if c['kind'] == kind][:1 if tier == 'quick' else 4]:
+                lo = [round(3.0 + 1.5 * j, 2) for j in range(c['n_vars'])]
+                extra.append(dict(c, hook='observer', adv=0.3, n_iter=max(c['n_iter'], 4), n_agents=max(c['n_agents'], 4), box='offset', lb=lo,
+                                  ub=[l_ + 2.0 for l_ in lo], objective='positive' if kind == 'WCA' else 'sphere', hyper={}, fresh_agents=True))
+    if prop == 'C02':
+        # an objective that returns the same mutable 0-d array on every call (filled in place): the best value is the one it held
+        # when the best agent was evaluated
+        pool_o = [c for c in runlevel.gen_configs('thorough', seed + 391) if c['space'] == 'search']
+        for kind in ('SCA', 'GSA', 'FA', 'HC', 'BHA', 'SA'):
+            for c in [c for c in pool_o if c['kind'] == kind][:1 if tier == 'quick' else 4]:
+                extra.append(dict(c, hook='observer', adv=0.0, n_iter=max(c['n_iter'], 4), n_agents=max(c['n_agents'], 6), objective='bufout', box='wide',
+                                  lb=[-10.0] * c['n_vars'], ub=[10.0] * c['n_vars'], hyper={}, store_best_only=False))
+    if prop in ('C02', 'C01', 'C06'):
+        # a warm start: every agent has been through its own check_limits, then only the upper bounds are re-declared (space and
+        # agents, through the setters); trial solutions are clipped to the box as it is now
+        pool_u = [c for c in runlevel.gen_configs('thorough', seed + 371) if c['space'] == 'search']
+        for kind in ('ABC', 'FPA', 'CS', 'SA', 'HS', 'BA'):
+            for c in [c for c in pool_u if c['kind'] == kind][:1 if tier == 'quick' else 4]:
+                nv = max(c['n_vars'], 2)
+                extra.append(dict(c, hook='observer', adv=0.0, n_iter=10, n_agents=max(c['n_agents'], 6), n_vars=nv, box='unit', lb=[0.0] * nv, ub=[1.0] * nv,
+                                  objective='outside', hyper={}, store_best_only=False, shrink_ub=True))
+    if prop == 'C03':
+        # hooks of other callable kinds than a plain three-parameter function (written with *args, a callable object, a bound method
+        # taking *args): they can take (optimizer, space, function), so they are called with them, n_iterations + 1 times
+        pool_s = runlevel.gen_configs('thorough', seed + 331)
+        for j_, kind in enumerate(['PSO', 'HC', 'ABC', 'GP', 'SA', 'CS']):
+            for c in [c for c in pool_s if c['kind'] == kind][:1 if tier == 'quick' else 3]:
+                extra.append(dict(c, hook='observer', adv=0.0, hook_sig=['varargs', 'callable', 'method'][j_ % 3]))
+    if prop == 'C15':
+        # the ranges of the adaptive hyperparameters narrowed through the setters by a hook while the task runs
+        pool_r = runlevel.gen_configs('thorough', seed + 341)
+        for kind in ('IHS', 'AIWPSO'):
+            for c in [c for c in pool_r if c['kind'] == kind][:2 if tier == 'quick' else 6]:
+                extra.append(dict(c, hook='narrow', adv=0.0, n_iter=8, n_agents=max(c['n_agents'], 4), hyper={}, objective='sphere'))
+    if prop == 'C03':
         # a hook that enlarges the population by one individual: every sweep evaluates the population as it is then
         pool_a = [c for c in runlevel.gen_configs('thorough', seed + 271) if c['space'] == 'search']
         for kind in ('HC', 'SA', 'SCA', 'FA', 'FPA', 'CS'):
@@ -525,6 +581,10 @@ def extra_configs(prop, tier, seed):
                 nv = max(c['n_vars'], 2)
                 extra.append(dict(c, hook='observer', adv=0.0, n_iter=6, n_agents=max(c['n_agents'], 5), n_vars=nv, box='wide', lb=[-10.0] * nv,
                                   ub=[10.0] * nv, objective='sphere', hyper={}, store_best_only=False, int_start=True))
+                if kind in ('ABC', 'CS', 'FPA', 'HS'):
+                    # (an optimum at the upper bounds: what is stored rounded towards zero is worse than what was evaluated)
+                    extra.append(dict(c, hook='observer', adv=0.0, n_iter=10, n_agents=max(c['n_agents'], 6), n_vars=nv, box='wide', lb=[-10.0] * nv,
+                                      ub=[10.0] * nv, objective='boundary', hyper={}, store_best_only=False, int_start=True))
     if prop == 'C20':
         # the greedy kinds on a hypercomplex space with real bounds far from the unit box (the usual set-up: the bounds are only
         # consumed by span inside the objective), long enough for an out-of-box trial to be a matter of course
@@ -586,6 +646,19 @@ def repeated_start_issues(kinds=('PSO', 'HC', 'ABC', 'SA')):
             continue
         finally:
             om.time.time = real
+        # the flag is an argument of each start(): a task started without it records everything, whatever an earlier start on the
+        # same object was given
+        try:
+            om.time.time = clock
+            ha = task.start(store_best_only=True)
+            hb = task.start()
+            if not hasattr(hb, 'agents') or hasattr(ha, 'agents'):
+                issues.append(dict(what='store-best-only-carried-over', layer='oracle', cfg_kind=kind, first=sorted(vars(ha)), second=sorted(vars(hb)),
+                                   replay=dict(how='repeated-start', kind=kind)))
+        except Exception as ex:
+            issues.append(dict(what='repeated-start-raised', layer='oracle', cfg_kind=kind, error=repr(ex)[:120], replay=dict(how='repeated-start', kind=kind)))
+        finally:
+            om.time.time = real
         for j, h in enumerate(hs):
             tm = getattr(h, 'time', None)
             if not (isinstance(tm, list) and len(tm) == 1 and isinstance(tm[0], (int, float)) and tm[0] >= 0):
@@ -603,13 +676,16 @@ def plain_gp_issues(seeds=range(8)):
     L = lib.load()
     np = L['np']
     issues = []
-    boxes = [([-5.0, 0.0], [5.0, 5e-11]), ([0.0], [5e-11]), ([-10.0, -10.0], [10.0, 10.0]), ([1e-9, 5e-9], [2e-9, 6e-9])]
+    boxes = [([-5.0, 0.0], [5.0, 5e-11]), ([0.0], [5e-11]), ([-10.0, -10.0], [10.0, 10.0]), ([1e-9, 5e-9], [2e-9, 6e-9]),
+             ([0.0], [5000.0]), ([-5000.0, 0.0], [5000.0, 800.0])]
+    funcsets = {4: ['EXP', 'SUM', 'MUL'], 5: ['EXP', 'SUB', 'COS', 'SUM']}
     for sd in seeds:
         lb, ub = boxes[sd % len(boxes)]
         nv = len(lb)
 
         def objective(x):
-            return float(np.sum((np.asarray(x, dtype=float) * 1e3 - 1.0) ** 2))
+            with np.errstate(all='ignore'):
+                return float(np.sum((np.asarray(x, dtype=float) * 1e3 - 1.0) ** 2))
 
         def clip(v):
             v = np.array(v, dtype=float)
@@ -620,7 +696,7 @@ def plain_gp_issues(seeds=range(8)):
         np.random.seed(1000 + sd)
         try:
             sp = L['TreeSpace'](n_trees=10, n_terminals=2, n_variables=nv, n_iterations=1 + sd % 5, min_depth=1, max_depth=3,
-                                functions=['SUM', 'SUB', 'MUL', 'DIV'], lower_bound=lb, upper_bound=ub)
+                                functions=funcsets.get(sd % len(boxes), ['SUM', 'SUB', 'MUL', 'DIV']), lower_bound=lb, upper_bound=ub)
             gp = L['kinds']['GP'](hyperparams={'p_reproduction': 0.3, 'p_mutation': 0.3, 'p_crossover': 0.3, 'prunning_ratio': 0.0})
             h = L['Opytimizer'](space=sp, optimizer=gp, function=L['Function'](pointer=objective)).start()
         except Exception as ex:
